@@ -32,6 +32,8 @@ import (
 	vaultApp "github.com/oasisprotocol/oasis-core/go/consensus/cometbft/apps/vault"
 	tmbeacon "github.com/oasisprotocol/oasis-core/go/consensus/cometbft/beacon"
 	tmroothash "github.com/oasisprotocol/oasis-core/go/consensus/cometbft/roothash"
+	"github.com/oasisprotocol/oasis-core/go/common/persistent"
+	upgradeBackend "github.com/oasisprotocol/oasis-core/go/upgrade"
 	upgrade "github.com/oasisprotocol/oasis-core/go/upgrade/api"
 )
 
@@ -62,6 +64,11 @@ type ReplicaConfig struct {
 	// Upgrade, when set, gives the server an upgrade backend with this preloaded consensus
 	// upgrade (NOT local configuration: it must be the same on every replica). nil = no upgrader.
 	Upgrade *UpgradeSpec
+	// UpgradeManager gives the server the REAL node-local upgrade manager (go/upgrade.New over a
+	// persistent store in the data dir). Its on-disk descriptor store is node-LOCAL mutable
+	// state: it survives Restart and is written even by block executions that never commit.
+	// Mutually exclusive with Upgrade.
+	UpgradeManager bool
 }
 
 // Replica is one ABCI application server with all real apps registered.
@@ -83,6 +90,9 @@ type Replica struct {
 	srvMu sync.RWMutex
 
 	Height   int64 // last committed height (0 = only InitChain done)
+	boots    int
+	upgStore *persistent.CommonStore
+	upgMgr   upgrade.Backend
 	// RegOrder lists the app names in the order they were registered at the last boot.
 	RegOrder []string
 	Restarts int
@@ -220,7 +230,20 @@ func (r *Replica) boot() (err error) {
 	var upgrader upgrade.Backend
 	if cfg.Upgrade != nil {
 		upgrader = &mockUpgrader{spec: *cfg.Upgrade}
+	} else if cfg.UpgradeManager {
+		store, err := persistent.NewCommonStore(cfg.DataDir)
+		if err != nil {
+			return fmt.Errorf("persistent store: %w", err)
+		}
+		// checkStatus = true after the first boot, like a restarting node
+		upgrader, err = upgradeBackend.New(store, cfg.DataDir, r.boots > 0)
+		if err != nil {
+			store.Close()
+			return fmt.Errorf("upgrade manager: %w", err)
+		}
+		r.upgStore, r.upgMgr = store, upgrader
 	}
+	r.boots++
 	srv, err := abci.NewApplicationServer(r.ctx, upgrader, &abci.ApplicationConfig{
 		DataDir:                   cfg.DataDir,
 		StorageBackend:            cfg.Backend,
@@ -325,7 +348,25 @@ func (r *Replica) Close() {
 	}
 }
 
+// Upgrader returns the server's upgrade backend (nil if none is configured).
+func (r *Replica) Upgrader() upgrade.Backend {
+	if r.Srv == nil {
+		return nil
+	}
+	return r.Srv.State().Upgrader()
+}
+
 func (r *Replica) stop() {
+	defer func() {
+		if r.upgMgr != nil {
+			func() {
+				defer func() { _ = recover() }()
+				r.upgMgr.Close()
+				r.upgStore.Close()
+			}()
+			r.upgMgr, r.upgStore = nil, nil
+		}
+	}()
 	if r.Srv != nil {
 		func() {
 			defer func() { _ = recover() }()
